@@ -2,8 +2,12 @@ package checks
 
 import (
 	"fmt"
+	"os"
 	"sort"
 	"strings"
+
+	textwire "github.com/textwire/textwire/v2"
+	"github.com/textwire/textwire/v2/config"
 
 	"verif/core"
 	"verif/model"
@@ -298,6 +302,66 @@ func init() {
 						if !got.Panicked && (got.Err != nil || got.Out != want) {
 							c.Violation("layout-loops", fmt.Sprintf("render %d of the page gave %s, want %q", round+1, clipS(got.Describe(), 600), want), map[string]any{"files": describeFiles(files)})
 							return
+						}
+					}
+				}},
+				// template directories whose names begin with a dot, and the directory settings ".", "./" and ".." (given from
+				// inside the tree): the page renders its layout as under any other directory name
+				{Name: "dot-named-template-directories", Exhaustive: true, N: 9, Run: func(c *core.Ctx, i int) {
+					files := map[string]string{"layouts/main.tw": "<html>@reserve(\"body\")</html>", "page.tw": "@use(\"~main\")@insert(\"body\", who + \"!\")", "sub/deep.tw": "@use(\"~main\")@insert(\"body\")deep {{ who }}@end"}
+					real := []string{".site", ".site", "t9/.hidden", ".a/.b", "c06dot", "c06dot", "c06dot", "..c06", ".c06/views.d"}[i]
+					spelled := []string{".site", "./.site/", "t9/.hidden", ".a/.b/", ".", "./", "..", "..c06", "./.c06/views.d"}[i]
+					tplDir, chdirTo := spelled, ""
+					switch spelled {
+					case ".", "./":
+						chdirTo = real
+					case "..":
+						chdirTo = real + "/sub"
+					}
+					for _, d := range []string{".site", "t9", ".a", "c06dot", "..c06", ".c06"} {
+						os.RemoveAll(d)
+					}
+					if err := writeFiles(real, files); err != nil {
+						c.Inconclusive(err.Error())
+						return
+					}
+					defer os.RemoveAll(strings.SplitN(real, "/", 2)[0])
+					c.Input(map[string]any{"template_dir": spelled, "working_directory_inside_the_tree": chdirTo != "", "files": describeFiles(files)})
+					c.Nontrivial("dotdir:" + spelled)
+					if chdirTo != "" {
+						back, _ := os.Getwd()
+						if err := os.Chdir(chdirTo); err != nil {
+							c.Inconclusive(err.Error())
+							return
+						}
+						defer os.Chdir(back)
+					}
+					textwire.VerifResetConfig()
+					var tpl *textwire.Template
+					var err error
+					c.Eval(1)
+					if c.Guard(func() { tpl, err = textwire.NewTemplate(&config.Config{TemplateDir: tplDir, TemplateExt: ".tw"}) }) {
+						return
+					}
+					if err != nil || tpl == nil {
+						c.Violation("dot-directory:load-failed", fmt.Sprintf("the tree under %q (template directory %q) did not load: %v", real, spelled, err), nil)
+						return
+					}
+					for page, want := range map[string]string{"page": "<html>w!</html>", "sub/deep": "<html>deep w</html>"} {
+						var out string
+						var fe error
+						c.Eval(1)
+						if c.Guard(func() {
+							o, e := tpl.String(page, map[string]any{"who": "w"})
+							out = o
+							if e != nil {
+								fe = e.Error()
+							}
+						}) {
+							return
+						}
+						if fe != nil || out != want {
+							c.Violation("dot-directory", fmt.Sprintf("template directory %q: page %q rendered (%q, %v), want %q", spelled, page, out, fe, want), nil)
 						}
 					}
 				}},
